@@ -348,3 +348,28 @@ __CPROVER_ensures(g_registers == 1 && g_registered == self->_thread_context) /*@
     harness='  STC* s; QueueType q; size_t a; size_t b; HugePagesPolicy h; STC_ctor(s, q, a, b, h);',
     dropped=['shared_ptr as a raw pointer', 'the debug-only once-per-thread assertion (NDEBUG)'], trusted=['ThreadContext constructor by unit TC.ctor; register_thread_context by unit TCM.register'], min_obligations=5)
 UNITS += [scoped_ctor]
+
+GL_PRELUDE = r'''
+typedef uint8_t QueueType; typedef uint8_t HugePagesPolicy;
+typedef struct ThreadContext { int d; } ThreadContext;
+QueueType OPT_queue_type; size_t OPT_initial_queue_capacity, OPT_unbounded_queue_max_capacity; HugePagesPolicy OPT_huge_pages_policy;   /* the members of TFrontendOptions */
+ThreadContext g_tc_of_thread; size_t g_inits; QueueType g_i_qt; size_t g_i_initial, g_i_max; HugePagesPolicy g_i_hp;
+/* initialisation of the thread_local ScopedThreadContext (once per thread; constructor: unit TCM.scoped_ctor) */
+static inline void STC_INIT(QueueType qt, size_t initial, size_t max, HugePagesPolicy hp) { g_inits++; g_i_qt = qt; g_i_initial = initial; g_i_max = max; g_i_hp = hp; }
+static inline ThreadContext* STC_GET(void) { return &g_tc_of_thread; }
+'''
+get_local = dict(
+    name='TCM.get_local', primary='C03', props={'C03'}, kind='S',
+    desc='detail::get_local_thread_context<TFrontendOptions>: the calling thread\'s context is created from the frontend options - queue type, initial capacity, maximum capacity, huge pages, each in its own place - and handed back',
+    structs=[], prelude=GL_PRELUDE, enforce='get_local_thread_context', replace=[],
+    funcs=[dict(src=dict(header=H, cls=None, name='get_local_thread_context'), src_params=[], cfun='get_local_thread_context', sig='ThreadContext* get_local_thread_context(void)', member_fields=[], ret_default='NULL',
+                pre_rules=[(r'thread_local\s+ScopedThreadContext\s+scoped_thread_context\{\s*(.*?)\}\s*;', r'STC_INIT(\1);', '!'), (r'TFrontendOptions::(\w+)', r'OPT_\1'),
+                           (r'scoped_thread_context\.get_thread_context\(\)', 'STC_GET()')],
+                contract=r'''
+__CPROVER_requires(g_inits == 0)
+__CPROVER_assigns(g_inits, g_i_qt, g_i_initial, g_i_max, g_i_hp)
+__CPROVER_ensures(g_inits == 1 && g_i_qt == OPT_queue_type && g_i_initial == OPT_initial_queue_capacity && g_i_max == OPT_unbounded_queue_max_capacity && g_i_hp == OPT_huge_pages_policy) /*@ C03 "the thread's queue is built from the frontend options: type, initial capacity and maximum capacity each in its own place" */
+__CPROVER_ensures(RET == &g_tc_of_thread) /*@ C03 "the caller logs through its own thread's context" */
+''')],
+    harness='  get_local_thread_context();', dropped=['thread_local storage duration: the initialisation runs on a thread\'s first call only (C++ semantics, not modelled: the unit is that first call)'], trusted=[], min_obligations=3)
+UNITS += [get_local]
